@@ -1,0 +1,41 @@
+//go:build verif
+// +build verif
+
+package filetracker
+
+import "fmt"
+
+// Verification hooks (add-only, compiled only with -tags verif): exported wrappers around the
+// package-private write-range tracker so that an external test package can drive it.
+
+// VerifNewTFile returns a tracker with no base store and no backing file, exactly as
+// TestTrackWrite constructs it.
+func VerifNewTFile() *TFile { return newTFile(nil, nil, "verif") }
+
+// VerifTrackWrite records a write of length bytes at offset.
+func (t *TFile) VerifTrackWrite(offset int64, length int64) { t.trackWrite(offset, length) }
+
+// VerifRangeToRead returns getRangeToRead's answer: the contiguous length readable from offset
+// (at most length) and whether it comes from the mutable (written) data rather than the base file.
+func (t *TFile) VerifRangeToRead(offset int64, length int64) (contiguous int64, fromMutable bool) {
+	c, s := t.getRangeToRead(offset, length)
+	return c, s == mutable
+}
+
+// VerifMarkers renders the start/end markers held by the radix tree, in key order, e.g.
+// "0:S 5:E" (diagnostics for failure messages only).
+func (t *TFile) VerifMarkers() string {
+	out := ""
+	t.tracker.Root().Walk(func(k []byte, v interface{}) bool {
+		f := "E"
+		if v.(bool) == startFlag {
+			f = "S"
+		}
+		if out != "" {
+			out += " "
+		}
+		out += fmt.Sprintf("%d:%s", getOffset(k), f)
+		return false
+	})
+	return out
+}
